@@ -24,6 +24,16 @@ class CopyInfo:
         self.defined_in: ClassInfo | None = None
         self.problems: list[str] = []
         self.returns_new = False
+        self.dynamic_kinds: set[str] = set()   # generic loop over the instance dict: every attribute holding one of these kinds is re-copied
+        self.unsupported: str = ""             # a shape of __copy__ the rules do not understand (no verdict)
+
+    def covers(self, program: Program, recv: ClassInfo, attr: str) -> bool:
+        if attr in self.recopied:
+            return True
+        if self.dynamic_kinds:
+            kinds = {k for k in program.attr_kinds(recv).get(attr, set()) if k != "none" and not k.startswith("class:")}
+            return bool(kinds) and kinds <= self.dynamic_kinds
+        return False
 
 
 def _fresh_container_expr(e: ast.expr, selfname: str, attr: str) -> bool:
@@ -77,16 +87,22 @@ def _copy_of(program: Program, recv: ClassInfo, f: FuncInfo, _memo: dict) -> Cop
                     else:
                         pi = _copy_of(program, recv, parent, _memo)
                         info.recopied |= pi.recopied
+                        info.dynamic_kinds |= pi.dynamic_kinds
+                        info.unsupported = info.unsupported or pi.unsupported
                         info.full_dict = pi.full_dict
                         info.problems += pi.problems
     if newvar is None:
         info.problems.append("no new object is created (neither __new__ nor super().__copy__())")
         return info
+    new_dict_alias = {n.targets[0].id for n in ast.walk(f.node)
+                      if isinstance(n, ast.Assign) and len(n.targets) == 1 and isinstance(n.targets[0], ast.Name)
+                      and isinstance(n.value, ast.Attribute) and n.value.attr == "__dict__" and isinstance(n.value.value, ast.Name) and n.value.value.id == newvar}
     for node in ast.walk(f.node):
         if isinstance(node, ast.Call) and isinstance(node.func, ast.Attribute) and node.func.attr == "update":
             tgt = node.func.value
-            if (isinstance(tgt, ast.Attribute) and tgt.attr == "__dict__" and isinstance(tgt.value, ast.Name)
-                    and tgt.value.id == newvar and node.args and isinstance(node.args[0], ast.Attribute)
+            tgt_is_new_dict = (isinstance(tgt, ast.Attribute) and tgt.attr == "__dict__" and isinstance(tgt.value, ast.Name) and tgt.value.id == newvar) or (
+                isinstance(tgt, ast.Name) and tgt.id in new_dict_alias)
+            if (tgt_is_new_dict and node.args and isinstance(node.args[0], ast.Attribute)
                     and node.args[0].attr == "__dict__" and isinstance(node.args[0].value, ast.Name)
                     and node.args[0].value.id == selfname):
                 info.full_dict = True
@@ -99,7 +115,167 @@ def _copy_of(program: Program, recv: ClassInfo, f: FuncInfo, _memo: dict) -> Cop
                         info.recopied.discard(t.attr)
         if isinstance(node, ast.Return) and isinstance(node.value, ast.Name) and node.value.id == newvar:
             info.returns_new = True
+    _generic_copy_loops(program, recv, f, info, selfname, newvar)
     return info
+
+
+def _isinstance_kinds(test: ast.expr, var: str) -> set[str] | None:
+    """kinds named by `isinstance(var, (list, set, ...))`; None when the test is something else"""
+    if (isinstance(test, ast.Call) and isinstance(test.func, ast.Name) and test.func.id == "isinstance" and len(test.args) == 2
+            and isinstance(test.args[0], ast.Name) and test.args[0].id == var):
+        spec = test.args[1]
+        names = [e for e in (spec.elts if isinstance(spec, ast.Tuple) else [spec])]
+        if all(isinstance(n, ast.Name) and n.id in ("list", "set", "dict") for n in names):
+            return {n.id for n in names}
+    return None
+
+
+def _dict_items_of(e: ast.expr, names: set[str]) -> bool:
+    """`<obj>.__dict__.items()` / `vars(<obj>).items()` for obj in names"""
+    if not (isinstance(e, ast.Call) and isinstance(e.func, ast.Attribute) and e.func.attr == "items" and not e.args):
+        return False
+    b = e.func.value
+    if isinstance(b, ast.Attribute) and b.attr == "__dict__" and isinstance(b.value, ast.Name) and b.value.id in names:
+        return True
+    if isinstance(b, ast.Call) and isinstance(b.func, ast.Name) and b.func.id == "vars" and len(b.args) == 1 and isinstance(b.args[0], ast.Name) and b.args[0].id in names:
+        return True
+    return isinstance(b, ast.Name) and b.id in names
+
+
+def _names_comprehension(e: ast.expr, objs: set[str]) -> set[str] | None:
+    """`tuple(name for name, value in self.__dict__.items() if isinstance(value, (list, set)))` -> kinds"""
+    if isinstance(e, ast.Call) and isinstance(e.func, ast.Name) and e.func.id in ("tuple", "list", "frozenset", "set", "sorted") and len(e.args) == 1:
+        e = e.args[0]
+    if not isinstance(e, (ast.GeneratorExp, ast.ListComp, ast.SetComp)) or len(e.generators) != 1:
+        return None
+    g = e.generators[0]
+    if not (isinstance(g.target, ast.Tuple) and len(g.target.elts) == 2 and all(isinstance(x, ast.Name) for x in g.target.elts)):
+        return None
+    nm, val = g.target.elts[0].id, g.target.elts[1].id
+    if not (isinstance(e.elt, ast.Name) and e.elt.id == nm and _dict_items_of(g.iter, objs) and len(g.ifs) == 1):
+        return None
+    return _isinstance_kinds(g.ifs[0], val)
+
+
+def _generic_copy_loops(program: Program, recv: ClassInfo, f: FuncInfo, info: CopyInfo, selfname: str, newvar: str) -> None:
+    """`for name in <names>: state[name] = copy(state[name])` -- a generic re-copy loop.  <names> is resolved to a set of
+    attribute names (literal tuple; a tuple stored by a constructor: the container attributes assigned *before* it) or to
+    the kinds an instance-dict scan filters on.  Any other loop in __copy__ is not understood: no verdict."""
+    objs = {selfname, newvar}
+    dict_alias = set()
+    for node in ast.walk(f.node):
+        if isinstance(node, ast.Assign) and len(node.targets) == 1 and isinstance(node.targets[0], ast.Name):
+            v = node.value
+            if isinstance(v, ast.Attribute) and v.attr == "__dict__" and isinstance(v.value, ast.Name) and v.value.id in objs:
+                dict_alias.add(node.targets[0].id)
+            if isinstance(v, ast.Call) and isinstance(v.func, ast.Name) and v.func.id == "vars" and v.args and isinstance(v.args[0], ast.Name) and v.args[0].id in objs:
+                dict_alias.add(node.targets[0].id)
+
+    def store_of(body: list, name: str) -> bool:
+        """the loop body re-copies attribute <name> of the new object"""
+        for st in body:
+            if isinstance(st, ast.Assign) and len(st.targets) == 1 and isinstance(st.targets[0], ast.Subscript):
+                t = st.targets[0]
+                key = t.slice
+                base_ok = (isinstance(t.value, ast.Name) and t.value.id in dict_alias) or (
+                    isinstance(t.value, ast.Attribute) and t.value.attr == "__dict__" and isinstance(t.value.value, ast.Name) and t.value.value.id == newvar)
+                if base_ok and isinstance(key, ast.Name) and key.id == name and _fresh_container_expr(st.value, selfname, name):
+                    return True
+            if (isinstance(st, ast.Expr) and isinstance(st.value, ast.Call) and isinstance(st.value.func, ast.Name) and st.value.func.id == "setattr"
+                    and len(st.value.args) == 3 and isinstance(st.value.args[0], ast.Name) and st.value.args[0].id == newvar
+                    and isinstance(st.value.args[1], ast.Name) and st.value.args[1].id == name and _fresh_container_expr(st.value.args[2], selfname, name)):
+                return True
+        return False
+
+    for loop in [n for n in ast.walk(f.node) if isinstance(n, (ast.For, ast.While))]:
+        if isinstance(loop, ast.While) or loop.orelse:
+            info.unsupported = f"loop of unrecognised shape in {f.qualname}"
+            return
+        it = loop.iter
+        # (c) scan of the instance dict at copy time: for name, value in self.__dict__.items(): if isinstance(value, (list, set)): state[name] = copy(value)
+        if isinstance(loop.target, ast.Tuple) and len(loop.target.elts) == 2 and all(isinstance(x, ast.Name) for x in loop.target.elts) and _dict_items_of(it, objs | dict_alias):
+            nm, val = loop.target.elts[0].id, loop.target.elts[1].id
+            if len(loop.body) == 1 and isinstance(loop.body[0], ast.If) and not loop.body[0].orelse:
+                kinds = _isinstance_kinds(loop.body[0].test, val)
+                if kinds and store_of(loop.body[0].body, nm):
+                    info.dynamic_kinds |= kinds
+                    continue
+            info.unsupported = f"instance-dict loop of unrecognised shape in {f.qualname}"
+            return
+        if not isinstance(loop.target, ast.Name) or not store_of(loop.body, loop.target.id):
+            info.unsupported = f"loop of unrecognised shape in {f.qualname}"
+            return
+        kinds = _names_comprehension(it, objs | dict_alias)
+        if kinds:
+            info.dynamic_kinds |= kinds
+            continue
+        if isinstance(it, (ast.Tuple, ast.List)) and all(isinstance(x, ast.Constant) and isinstance(x.value, str) for x in it.elts):
+            info.recopied |= {x.value for x in it.elts}
+            continue
+        if isinstance(it, ast.Attribute) and ((isinstance(it.value, ast.Name) and it.value.id in objs) or
+                                              (isinstance(it.value, ast.Call) and isinstance(it.value.func, ast.Name) and it.value.func.id == "type")):
+            names = _stored_names(program, recv, it.attr)
+            if names is not None:
+                info.recopied |= names
+                continue
+        info.unsupported = f"names iterated by the re-copy loop of {f.qualname} are not resolvable: {ast.unparse(it)[:60]}"
+        return
+
+
+def _stored_names(program: Program, recv: ClassInfo, attr: str) -> set[str] | None:
+    """attribute names held by `self.<attr>` / a class attribute of that name"""
+    e = recv.class_attr(attr)
+    if e is not None:
+        if isinstance(e, (ast.Tuple, ast.List)) and all(isinstance(x, ast.Constant) and isinstance(x.value, str) for x in e.elts):
+            return {x.value for x in e.elts}
+        return None
+    sites = []
+    for k in recv.mro:
+        for fn in k.methods.values():
+            if fn.is_static or not fn.params:
+                continue
+            for node in ast.walk(fn.node):
+                if isinstance(node, ast.Assign) and any(isinstance(t, ast.Attribute) and t.attr == attr and isinstance(t.value, ast.Name) and t.value.id == fn.params[0] for t in node.targets):
+                    sites.append((k, fn, node))
+    if len(sites) != 1 or sites[0][1].name != "__init__":
+        return None
+    k, fn, node = sites[0]
+    if isinstance(node.value, (ast.Tuple, ast.List)) and all(isinstance(x, ast.Constant) and isinstance(x.value, str) for x in node.value.elts):
+        return {x.value for x in node.value.elts}
+    kinds = _names_comprehension(node.value, {fn.params[0]})
+    if not kinds:
+        return None
+    # the scan sees what the constructors have assigned so far: this constructor's stores before the statement, and
+    # the whole constructors of the bases if super().__init__() was called before it (a subclass constructor that
+    # assigns its containers after super().__init__() comes too late)
+    from ..model import expr_kind
+    out: set[str] = set()
+
+    def stores(fnode, upto):
+        sn = fnode.args.args[0].arg
+        for n in ast.walk(fnode):
+            if getattr(n, "lineno", 0) >= upto:
+                continue
+            tgt = val = None
+            if isinstance(n, ast.Assign):
+                for t in n.targets:
+                    if isinstance(t, ast.Attribute) and isinstance(t.value, ast.Name) and t.value.id == sn and expr_kind(n.value) in kinds:
+                        out.add(t.attr)
+            elif isinstance(n, ast.AnnAssign) and n.value is not None and isinstance(n.target, ast.Attribute) and isinstance(n.target.value, ast.Name) and n.target.value.id == sn and expr_kind(n.value) in kinds:
+                out.add(n.target.attr)
+
+    stores(fn.node, node.lineno)
+    super_before = any(isinstance(n, ast.Call) and isinstance(n.func, ast.Attribute) and n.func.attr == "__init__" and isinstance(n.func.value, ast.Call)
+                       and isinstance(n.func.value.func, ast.Name) and n.func.value.func.id == "super" and n.lineno < node.lineno for n in ast.walk(fn.node))
+    if super_before:
+        seen_k = False
+        for kk in recv.mro:
+            if kk is k:
+                seen_k = True
+                continue
+            if seen_k and "__init__" in kk.methods:
+                stores(kk.methods["__init__"].node, 10 ** 9)
+    return out
 
 
 # --------------------------------------------------------------------------- guards
@@ -251,6 +427,7 @@ def check(program: Program, run: Run) -> None:
     run.rule("R4b the immutable switch the decorator consults is only turned off by the caller: no class attribute / assignment / constructor default sets it to a falsy constant")
     run.rule("R4 decorator shape: copy.copy under immutable default True; method applied to the copy; copy returned for None")
     run.rule("R6 a method that is not builder-decorated yet returns the receiver or an object capturing it does not write the receiver")
+    run.rule("R7 a method that returns derived objects does not return the receiver itself on another path")
     run.rule("R5 copy protocol: root __copy__ starts from full __dict__; overrides call super().__copy__()")
     run.assumptions += [
         "class-hierarchy call resolution: no monkey-patching, no user subclasses overriding helpers",
@@ -306,6 +483,8 @@ def check(program: Program, run: Run) -> None:
     total_methods = 0
     for c in classes:
         ci = copy_info(program, c, memo)
+        if ci.unsupported:
+            raise AnalysisError(f"unsupported construct: {ci.unsupported} (copy protocol of {c.qualname} not decided)")
         bl = builders_of(c)
         for f in bl:
             total_methods += 1
@@ -346,14 +525,14 @@ def check(program: Program, run: Run) -> None:
                     if not path:
                         continue
                     attr = path[0]
-                    row = table.setdefault(c.qualname, {}).setdefault(attr, {"recopied": attr in ci.recopied, "mutated_by": set(), "rebound_by": set()})
+                    row = table.setdefault(c.qualname, {}).setdefault(attr, {"recopied": ci.covers(program, c, attr), "mutated_by": set(), "rebound_by": set()})
                     if len(path) == 1 and e.kind == "rebind":
                         row["rebound_by"].add(f.name)
                         run.ob("C01/R1 rebinding write stays on the copy", subject, True, where=e.loc)
                         continue
                     if len(path) == 1 and e.kind == "mutate":
                         row["mutated_by"].add(f.name)
-                        ok = attr in ci.recopied
+                        ok = ci.covers(program, c, attr)
                         run.ob("C01/R1 in-place write hits a re-copied container", subject, ok,
                                detail=f"{e.stmt}{cont}", where=e.loc)
                         if not ok:
@@ -399,6 +578,7 @@ def check(program: Program, run: Run) -> None:
     # continuation object capturing it) is a builder method in the property's sense; it may not write the receiver.
     SELF = ("self", None, ())
     fluent_seen = 0
+    mixed_seen: set[str] = set()
     raw: dict[str, dict] = {}
     for c in classes:
         names = []
@@ -416,6 +596,17 @@ def check(program: Program, run: Run) -> None:
             if not hands_on:
                 continue
             fluent_seen += 1
+            if SELF in gs.returns:
+                # R7: the receiver itself is handed back on one path and a derived object on another: callers that
+                # treat the result as a new object (aliasing it, continuing it) alter the receiver on the first path
+                mixed = bool(gs.returns - {SELF})
+                run.ob("C01/R7 a method returning derived objects never returns the receiver itself", f"{c.qualname}::{g.cls.qualname}.{n}", not mixed,
+                       detail=f"returns {sorted(org_str(o) for o in gs.returns)}", where=g.loc())
+                if mixed and g.qualname not in mixed_seen:
+                    mixed_seen.add(g.qualname)
+                    run.finding(f"C01/returns-receiver:{g.qualname}", f"{g.qualname} returns a new object on one path and the receiver itself on another "
+                                f"(returns {sorted(org_str(o) for o in gs.returns)}): on that path the caller's 'result' is the caller's own query, so what is done to the result is done to the receiver",
+                                where=g.loc(), rule="R7")
             effs = list(gs.effects)
             for (kc, captured, _cloc) in gs.constructed:          # continuations applied to the raw receiver
                 for attr, orgs in captured.items():
